@@ -33,7 +33,8 @@ fn fwd(t: &Tab, k: i64) -> Value { t.iter().find(|e| e.0 == k).map(|e| e.1.clone
 fn t_ctx() -> Tab { let b = "https://www.w3.org/2018/credentials/v1"; vec![(0, json!(b)), (1, json!([b, "https://www.w3.org/2018/credentials/examples/v1"])), (2, json!([b, {"@vocab": "https://x.example/"}]))] }
 fn t_types() -> Tab { vec![(0, json!("VerifiableCredential")), (1, json!(["VerifiableCredential", "UniversityDegreeCredential"]))] }
 fn t_ptypes() -> Tab { vec![(0, json!("VerifiablePresentation")), (1, json!(["VerifiablePresentation", "CredentialManagerPresentation"]))] }
-fn t_issuer() -> Tab { vec![(1, json!(ISSUER)), (2, json!({"id": ISSUER, "name": "Issuer Inc"})), (3, json!({"id": ISSUER, "name": "Other name"}))] }
+fn t_issuer() -> Tab { vec![(1, json!(ISSUER)), (2, json!({"id": ISSUER, "name": "Issuer Inc"})), (3, json!({"id": ISSUER, "name": "Other name"})),
+  (1001, json!(ISSUER.replace("issuer", "ISSUER"))), (1002, json!({"id": ISSUER.replace("issuer", "ISSUER"), "name": "Issuer Inc"})), (1003, json!({"id": ISSUER.replace("issuer", "ISSUER"), "name": "Other name"}))] }
 fn t_subp() -> Tab { vec![(0, json!({})), (1, json!({"degree": {"type": "BachelorDegree", "name": "B.Sc."}})), (2, json!({"GPA": "4.0", "name": "Alice"}))] }
 fn t_schema() -> Tab { let s = |k: i64| json!({"id": format!("https://example.org/schema/{k}"), "type": "JsonSchemaValidator2018"}); vec![(0, Value::Null), (1, s(1)), (2, json!([s(1), s(2)]))] }
 fn t_refresh() -> Tab { let s = |k: i64| json!({"id": format!("https://example.edu/refresh/{k}"), "type": "ManualRefreshService2018"}); vec![(0, Value::Null), (1, s(1)), (2, json!([s(1), s(2)]))] }
@@ -41,16 +42,17 @@ fn t_tou() -> Tab { vec![(0, Value::Null), (1, json!({"type": "IssuerPolicy", "i
 fn t_evid() -> Tab { vec![(0, Value::Null), (1, json!({"id": "https://example.edu/evidence/1", "type": ["DocumentVerification"]}))] }
 fn t_props() -> Tab { vec![(0, json!({})), (1, json!({"name": "cred"})), (2, json!({"description": {"a": [1, 2]}, "extra": 5}))] }
 fn t_vcs() -> Tab { vec![(0, Value::Null), (1, json!(["eyJhbGciOiJFZERTQSJ9.eyJ2YyI6MX0.c2ln"])), (2, json!(["eyJhbGciOiJFZERTQSJ9.eyJ2YyI6MX0.c2ln", "eyJhbGciOiJFZERTQSJ9.eyJ2YyI6Mn0.c2ln"]))] }
-pub fn url_id(k: i64) -> Value { json!(format!("https://example.edu/credentials/{k}")) }
-pub fn un_url_id(v: &Value) -> Option<i64> { v.as_str()?.strip_prefix("https://example.edu/credentials/")?.parse().ok() }
-fn sub_id(k: i64) -> Value { json!(format!("did:example:subject{k}")) }
-fn un_sub_id(v: &Value) -> Option<i64> { v.as_str()?.strip_prefix("did:example:subject")?.parse().ok() }
+/// codes 1000 + k spell the same identifier with another letter case: a DIFFERENT URL / DID (only scheme and host are case-insensitive)
+pub fn url_id(k: i64) -> Value { if k >= 1000 { json!(format!("https://example.edu/credentials/ID{}", k - 1000)) } else { json!(format!("https://example.edu/credentials/id{k}")) } }
+pub fn un_url_id(v: &Value) -> Option<i64> { let t = v.as_str()?.strip_prefix("https://example.edu/credentials/")?; if let Some(n) = t.strip_prefix("id") { n.parse().ok() } else { t.strip_prefix("ID")?.parse::<i64>().ok().map(|n| n + 1000) } }
+fn sub_id(k: i64) -> Value { if k >= 1000 { json!(format!("did:example:SUBJECT{}", k - 1000)) } else { json!(format!("did:example:subject{k}")) } }
+fn un_sub_id(v: &Value) -> Option<i64> { let t = v.as_str()?; if let Some(n) = t.strip_prefix("did:example:subject") { n.parse().ok() } else { t.strip_prefix("did:example:SUBJECT")?.parse::<i64>().ok().map(|n| n + 1000) } }
 fn status(k: i64) -> Value { json!({"id": format!("https://example.edu/status/{k}"), "type": "CredentialStatusList2017"}) }
 fn un_status(v: &Value) -> Option<i64> { v.get("id")?.as_str()?.strip_prefix("https://example.edu/status/")?.parse().ok() }
 fn proof(k: i64) -> Value { json!({"type": "RsaSignature2018", "proofValue": format!("abc{k}")}) }
 fn un_proof(v: &Value) -> Option<i64> { v.get("proofValue")?.as_str()?.strip_prefix("abc")?.parse().ok() }
-fn holder(k: i64) -> Value { json!(if k == 1 { HOLDER.to_string() } else { format!("did:example:other{k}") }) }
-fn un_holder(v: &Value) -> Option<i64> { let s = v.as_str()?; if s == HOLDER { Some(1) } else { s.strip_prefix("did:example:other")?.parse().ok() } }
+fn holder(k: i64) -> Value { json!(if k == 1 { HOLDER.to_string() } else if k == 1001 { HOLDER.replace("holder", "HOLDER") } else { format!("did:example:other{k}") }) }
+fn un_holder(v: &Value) -> Option<i64> { let s = v.as_str()?; if s == HOLDER { Some(1) } else if s == HOLDER.replace("holder", "HOLDER") { Some(1001) } else { s.strip_prefix("did:example:other")?.parse().ok() } }
 pub fn aud(k: i64) -> Value { json!(format!("https://verifier.example/{k}")) }
 pub fn un_aud(v: &Value) -> Option<i64> { v.as_str()?.strip_prefix("https://verifier.example/")?.parse().ok() }
 const CNAMES: [(i64, &str); 12] = [(1, "exp"), (2, "iss"), (3, "iat"), (4, "nbf"), (5, "jti"), (6, "sub"), (7, "vc"), (8, "aud"), (9, "vp"), (20, "nonce"), (21, "foo"), (22, "cnf")];
@@ -292,7 +294,7 @@ pub fn gen(rng: &mut Rng, thorough: bool, sink: &mut Sink) {
     let nbf = if rng.chance(3, 4) { Some(*rng.pick(&DATES_ANY)) } else { None }; let iat = if rng.chance(1, 2) { Some(*rng.pick(&DATES_ANY)) } else { None };
     let exp = if rng.chance(2, 3) { Some(*rng.pick(&DATES_ANY)) } else { None };
     let d = used_issuance(iat, nbf);
-    let dup = |rng: &mut Rng, reg: Option<i64>, alt: i64| -> Option<i64> { match rng.below(if i % 3 == 0 { 4 } else { 12 }) { 0 => Some(alt), 1 | 2 => reg.or(Some(alt)), _ => if reg.is_some() && rng.chance(1, 2) { reg } else { None } } };
+    let dup = |rng: &mut Rng, reg: Option<i64>, alt: i64| -> Option<i64> { match rng.below(if i % 3 == 0 { 4 } else { 12 }) { 0 => if rng.chance(1, 2) { Some(alt) } else { Some(reg.map_or(alt, |r| r + 1000)) }, 1 | 2 => reg.or(Some(alt)), _ => if reg.is_some() && rng.chance(1, 2) { reg } else { None } } };
     let iissuer = dup(rng, Some(c.issuer), 3); let iid = dup(rng, c.id, 3); let isub = dup(rng, c.sub_id, 3);
     let iissued = match rng.below(8) { 0 | 1 => d.or(Some(0)), 2 => Some(*rng.pick(&DATES_IN)), _ => None };
     let iexp = match rng.below(8) { 0 | 1 => exp.filter(|e| gate(*e)).or(Some(0)), 2 => Some(*rng.pick(&DATES_IN)), _ => None };
@@ -314,7 +316,7 @@ pub fn gen(rng: &mut Rng, thorough: bool, sink: &mut Sink) {
   for _ in 0..(if thorough { 10000 } else { 1500 }) {
     let p = gen_p(rng);
     let nbf = if rng.chance(1, 2) { Some(*rng.pick(&DATES_ANY)) } else { None }; let iat = if rng.chance(1, 3) { Some(*rng.pick(&DATES_ANY)) } else { None }; let exp = if rng.chance(1, 2) { Some(*rng.pick(&DATES_ANY)) } else { None };
-    let iid = match rng.below(6) { 0 | 1 => p.id.or(Some(3)), 2 => Some(3), _ => None }; let ih = match rng.below(6) { 0 | 1 => Some(1), 2 => Some(2), _ => None };
+    let iid = match rng.below(7) { 0 | 1 => p.id.or(Some(3)), 2 => Some(3), 3 => Some(p.id.map_or(3, |x| x + 1000)), _ => None }; let ih = match rng.below(7) { 0 | 1 => Some(1), 2 => Some(2), 3 => Some(1001), _ => None };
     let mut case = vec![4]; wo(&mut case, exp); case.push(1); wo(&mut case, iat); wo(&mut case, nbf); wo(&mut case, p.id); wo(&mut case, opt(rng, 50, 1, 2));
     case.push(p.ctx); wo(&mut case, iid); case.extend([p.types, p.vcs]); wo(&mut case, ih); case.extend([p.refresh, p.tou, p.props]); wo(&mut case, p.proof);
     sink.case(case, "pclaims-set");
